@@ -477,8 +477,27 @@ func BuildErr(e M) error {
 			err = sentinel
 		}
 	}
+	// error values are kept and decorated further, the way applications keep package-level errors: a chain that was
+	// built before (in this process) is the same object again, and a longer chain is built on top of the object of
+	// its inner part. Decorating an error does not change the error that is decorated.
 	layers := L(e, "layers")
-	for i := len(layers) - 1; i >= 0; i-- {
+	keyOf := func(i int) string {
+		b, _ := json.Marshal([]any{S(e, "base"), layers[i:]})
+		return string(b)
+	}
+	errCacheMu.Lock()
+	defer errCacheMu.Unlock()
+	if len(errCacheMap) > 20000 {
+		errCacheMap = map[string]error{}
+	}
+	start := len(layers) - 1
+	for i := 0; i < len(layers); i++ {
+		if c, ok := errCacheMap[keyOf(i)]; ok {
+			err, start = c, i-1
+			break
+		}
+	}
+	for i := start; i >= 0; i-- {
 		l := AsM(layers[i])
 		v := S(l, "v")
 		switch S(l, "d") {
@@ -499,9 +518,15 @@ func BuildErr(e M) error {
 			fmt.Sscanf(S(l, "line"), "%d", &line)
 			err = pgerr.WithSource(err, S(l, "file"), int32(line), S(l, "fn"))
 		}
+		errCacheMap[keyOf(i)] = err
 	}
 	return err
 }
+
+var (
+	errCacheMu  sync.Mutex
+	errCacheMap = map[string]error{}
+)
 
 var sentinels = map[string]error{
 	io.EOF.Error():                 io.EOF,
